@@ -1,5 +1,5 @@
 """Generic rules R-NAME, R-DEF, R-RET, R-SIG over the program model (DESIGN.md section 2)."""
-import ast
+import ast, os
 from .srcmodel import (bound_locals, BUILTINS, own_nodes, func_params, enclosing_chain, dotted, bind_call,
                        local_imports, positional_params)
 from .flow import Analysis, Engine
@@ -347,6 +347,19 @@ def _is_slice_like(e):
     return False
 
 
+def _is_slice_list_expr(v):
+    """a list display / repetition / comprehension whose elements are slices or newaxis, used directly as an index"""
+    if isinstance(v, ast.List) and v.elts and all(_is_slice_like(e) for e in v.elts):
+        return True
+    if isinstance(v, ast.ListComp) and _is_slice_like(v.elt):
+        return True
+    if isinstance(v, ast.BinOp) and isinstance(v.op, ast.Mult):
+        return _is_slice_list_expr(v.left) or _is_slice_list_expr(v.right)
+    if isinstance(v, ast.BinOp) and isinstance(v.op, ast.Add):
+        return _is_slice_list_expr(v.left) and _is_slice_list_expr(v.right)
+    return False
+
+
 def rule_npindex(rep, m, fn, rule='R-NPIDX'):
     """numpy (>= 1.23) rejects a *list* of slices/newaxis as a multi-dimensional index: such index lists must be passed
     through tuple() before use"""
@@ -383,9 +396,88 @@ def rule_npindex(rep, m, fn, rule='R-NPIDX'):
             n_sites += 1
             if kinds[n.slice.id] == 'slicelist':
                 bad.append(n)
+        elif isinstance(n, ast.Subscript) and _is_slice_list_expr(n.slice):
+            n_sites += 1
+            bad.append(n)
     for n in bad:
-        rep.ob(rule, '%s:%s' % (m.rel, q), False, '`%s` indexes with the list %s of slices/newaxis; numpy requires a tuple here (IndexError at run time)' % (ast.unparse(n), n.slice.id),
-               m.rel, n.lineno, what='index list %s converted with tuple() before use' % n.slice.id)
+        nm = n.slice.id if isinstance(n.slice, ast.Name) else 'display'
+        rep.ob(rule, '%s:%s' % (m.rel, q), False, '`%s` indexes with a list of slices/newaxis; numpy requires a tuple here (IndexError at run time)' % ast.unparse(n)[:80],
+               m.rel, n.lineno, what='index list %s converted with tuple() before use' % nm)
     if n_sites and not bad:
         rep.ob(rule, '%s:%s' % (m.rel, q), True, '%d uses of constructed multi-dimensional indices, all tuples' % n_sites, m.rel, fn.lineno, what='index lists converted with tuple() before use')
+    return n_sites
+
+
+# ---------------------------------------------------------------------------------------------------------------------
+# R-SIG(ext): keyword arguments passed to a third-party function exist in the signature of the installed version
+_EXT_CACHE = {}
+
+
+def _site_packages():
+    import glob
+    c = sorted(glob.glob('/venv/lib/python3*/site-packages'))
+    return c[0] if c else None
+
+
+def ext_signature(dotted_name):
+    """(parameter names, has **kwargs, file, line) of e.g. scipy.optimize.fmin_l_bfgs_b, read from the sources of the package
+    installed in the repository's own environment (/venv); None when it cannot be located.  Nothing is imported."""
+    if dotted_name in _EXT_CACHE:
+        return _EXT_CACHE[dotted_name]
+    res = None
+    sp = _site_packages()
+    parts = dotted_name.split('.')
+    if sp and len(parts) >= 2:
+        pkgdir = os.path.join(sp, *parts[:-1])
+        fname = parts[-1]
+        cands = []
+        if os.path.isdir(pkgdir):
+            cands = sorted(os.path.join(pkgdir, f) for f in os.listdir(pkgdir) if f.endswith('.py'))
+        elif os.path.isfile(pkgdir + '.py'):
+            cands = [pkgdir + '.py']
+        for f in cands:
+            try:
+                src = open(f, encoding='utf-8', errors='replace').read()
+            except OSError:
+                continue
+            if 'def %s(' % fname not in src:
+                continue
+            try:
+                tree = ast.parse(src)
+            except SyntaxError:
+                continue
+            for n in tree.body:
+                if isinstance(n, ast.FunctionDef) and n.name == fname:
+                    a = n.args
+                    names = [x.arg for x in a.posonlyargs + a.args + a.kwonlyargs]
+                    res = (names, a.kwarg is not None, f, n.lineno)
+                    break
+            if res:
+                break
+    _EXT_CACHE[dotted_name] = res
+    return res
+
+
+def rule_extsig(rep, m, fn, prefixes=('scipy.optimize.',), rule='R-SIG(ext)'):
+    import_alias = {}
+    n_sites = 0
+    for c in own_nodes(fn):
+        if not isinstance(c, ast.Call):
+            continue
+        f = dotted(c.func) or ''
+        if not f.startswith(prefixes):
+            continue
+        sig = ext_signature(f)
+        q = '%s:%s call %s' % (m.rel, getattr(fn, '_qualname', fn.name), f)
+        if sig is None:
+            rep.note('%s: installed signature of %s not found; keyword check skipped' % (q, f))
+            continue
+        names, has_kw, file, line = sig
+        n_sites += 1
+        bad = [k.arg for k in c.keywords if k.arg is not None and k.arg not in names and not has_kw]
+        too_many = len(c.args) > len(names) and not has_kw
+        rep.ob(rule, q, not bad and not too_many,
+               ('keyword(s) %s not accepted by %s as installed (%s:%d: %s)' % (bad, f, os.path.relpath(file, '/venv'), line, ', '.join(names))) if bad or too_many
+               else 'all %d keywords accepted by the installed %s' % (len(c.keywords), f), m.rel, c.lineno,
+               what='keywords passed to %s exist in the installed signature (TypeError otherwise)' % f)
     return n_sites
